@@ -24,6 +24,16 @@ CFG = dict(
                  "blocks claimed less than one minute ago are never reclaimed (EmptyBlockMinReclaimAge)"],
 )
 
+def classify(line):
+    """the scripted witness cases carry the name of the finding they are the minimal replay of"""
+    for t in line.get("tags", []):
+        if t.startswith("witness:"):
+            return t[len("witness:"):]
+    return None
+
+CFG["classify"] = classify
+
+
 def run(ctx):
     return vlib.standard_flow(ctx, CFG)
 
